@@ -3026,7 +3026,8 @@ where
                                 }
                                 self.publish_recv.insert(packet_id);
 
-                                if !self.qos2_publish_handled.insert(packet_id) {
+                                // recorded as handled only after the packet passed validation (below)
+                                if self.qos2_publish_handled.contains(&packet_id) {
                                     already_handled = true;
                                 }
                                 if self.status == ConnectionStatus::Connected
@@ -3099,6 +3100,11 @@ where
                                     topic_alias_recv.insert_or_update(packet.topic_name(), ta);
                                 }
                             }
+                        }
+
+                        if packet.qos() == Qos::ExactlyOnce {
+                            self.qos2_publish_handled
+                                .insert(packet.packet_id().unwrap());
                         }
 
                         // Send response packets
